@@ -158,16 +158,24 @@ def share_tuples():
 
 def _evict_old(keep_hash):
     """Keep the disk bounded: drop library caches of other trees, but never one that was used in the last three
-    hours (another check may be running against it right now) and always keep the two most recent others."""
+    hours (another check may be running against it right now) and always keep the two most recent others.
+    Several checks may do this at the same time: a directory that vanishes under us is simply skipped."""
     import time
     libroot = os.path.join(BUILD, "lib")
-    if not os.path.isdir(libroot):
+
+    def mtime(d):
+        try:
+            return os.path.getmtime(os.path.join(libroot, d))
+        except OSError:
+            return 0.0
+    try:
+        others = sorted([d for d in os.listdir(libroot) if d != keep_hash and not d.startswith(".")], key=mtime)
+    except OSError:
         return
-    others = sorted([d for d in os.listdir(libroot) if d != keep_hash and not d.startswith(".")],
-                    key=lambda d: os.path.getmtime(os.path.join(libroot, d)))
     now = time.time()
     for d in others[:-2] if len(others) > 2 else []:
-        if now - os.path.getmtime(os.path.join(libroot, d)) > 3 * 3600:
+        m = mtime(d)
+        if m and now - m > 3 * 3600:
             shutil.rmtree(os.path.join(libroot, d), ignore_errors=True)
 
 
